@@ -174,6 +174,31 @@ def _c20(tier, replay, seed, work, t0):
             for p, msg, sig in vs:
                 verdict.add(p, msg, "", {"id": cid, "line": line, "trace": tpath})
 
+    # every subsystem name the server can report maps to a value whose protocol name is that name: the mapping from a
+    # reply line to a Subsystem is private (from_frame), so it is observed through the real client: one session in which
+    # the server reports every documented name (and unknown ones), singly and in groups; judged by SessionTrace's C04 monitor
+    names = ["database", "update", "stored_playlist", "playlist", "player", "mixer", "output", "options", "partition", "sticker", "subscription", "message", "neighbor", "mount",
+             "zzfuture", "Player", "stored-playlist", "x"]
+    batches = []
+    for i, nm in enumerate(names):
+        batches += [[{"op": "change", "subs": [nm]}], [{"op": "deliver"}]]
+    for i in range(0, len(names), 3):
+        batches += [[{"op": "change", "subs": names[i:i + 3]}], [{"op": "deliver"}]]
+    sp, stp = work.path("subs_sched.ndjson"), work.path("subs_trace.ndjson")
+    with open(sp, "w") as f:
+        f.write(json.dumps({"run": 0, "cfg": {"callers": 1}, "batches": batches}) + "\n")
+    C.run([binpath, "session", sp, stp], timeout=300)
+    stuples, _, sn, _ = C.tlc_trace("SessionTrace", "SessionTrace.cfg", stp, work, timeout=600)
+    nrec += sn - 1
+    nevents = sum(1 for l in open(stp) if '"e":"event"' in l)
+    for t in stuples:
+        if t[0] == "VIOL":
+            for p, msg, sig in t[3]:
+                if p == "C04" and sig != "F-C04-2":
+                    verdict.add(prop, "a subsystem name reported by the server did not arrive as an event carrying exactly that protocol name (" + msg + ")", "", {"id": -1, "line": t[2], "trace": stp})
+                elif p == "HARNESS":
+                    verdict.add("HARNESS", msg, "", {"id": -1})
+
     def write_replay(msg, sig, where):
         rec = None
         with open(where["trace"]) as f:
@@ -195,7 +220,7 @@ def _c20(tier, replay, seed, work, t0):
     cov = {"states": nrec + 1, "transitions": nrec, "traces_validated_against_impl": nrec, "samples": smp, "evaluations": nrec, "distinct_nontrivial": nrec - kinds.get("variants", 0),
            "rule": "NamesGen.tla enumerates the candidate strings (every documented tag name in canonical/lower/upper/mixed case, all strings of length <= 3 over {a, Z, _, -, 0, SP, e-acute}, catch-all contents); "
                    "the harness parses every candidate and compares every pair of values (named, parsed, catch-all); every record is distinct by construction; TLC judges each against Names.tla",
-           "exhaustive": not quick, "records_by_kind": kinds,
+           "exhaustive": not quick, "records_by_kind": kinds, "subsystem_events_through_real_client": nevents,
            "explanation": "finite domain; thorough enumerates every pair, quick a deterministic stride of the pairs"}
     C.write_evidence(prop, tier, "model_checking", cov,
                      ["the tag / subsystem name tables in spec/Names.tla are copied from the MPD documentation",
